@@ -559,7 +559,7 @@ def _generate12(rng, index, tier):
           # history: what the process loaded before (an EEMS 2.0 style file; a program over other libraries), and
           # whether the client calls run() again after the rejection
           "preload": rng.choice([None, None, "v2", "v2", "netcdf-program"]), "rerun": rng.random() < 0.35,
-          "api_recovery": rng.random() < 0.4}
+          "api_recovery": rng.random() < 0.4, "data_repair": rng.random() < 0.5}
     sc.update(sch)
     if cell.get("v2") and sc["fault"]:
         # EEMS 2.0 dialect: the translation drops every OutFileName argument, so such files have no file-writing commands
@@ -1107,6 +1107,8 @@ def _execute12(sc):
             start = log.seq
             out2 = run_once(sc, log, res, "cli", text, csv, [], [], [])
             _judge12_cli(sc, res, log, out, out2, fault, label, paths, start)
+        if not fault and sc.get("data_repair") and not sc.get("no_wd") and not libs:
+            _data_repair12(sc, res, log, text, csv)
     pos = [n["name"] for n in nodes]
     res.case_key = h64([sc.get("cell"), [c["cmd"] for c in model["cmds"]], label])
     res.schedule_key = h64([sc.get("order"), label])
@@ -1126,6 +1128,52 @@ def _execute12(sc):
     if sc["route"] == "cli":
         res.probe("CLI route")
     return res
+
+
+def _data_repair12(sc, res, log, text, csv):
+    """A well-formed model first meets a data file with a broken row (a legitimate run-time failure); the file is repaired
+    and the same program is run again: it is still the well-formed model it was, and must be accepted."""
+    from mpilot.program import Program
+    model = sc["model"]
+    rows = csv.split("\n")
+    if len(rows) < 2 or not rows[1]:
+        return
+    broken = list(rows)
+    broken[1] = ",".join("n/a" for _ in rows[1].split(","))
+    path = model["table"]["path"]
+    fs = SimFS(log, None, files={path: "\n".join(broken)}, dirs=[WORK])
+    log.emit("op-begin", op="DATA-REPAIR")
+    with fs, StdCapture(log):
+        try:
+            program = Program.from_source(text, working_dir=WORK)
+        except Exception as exc:  # noqa - judged by the first pass
+            return
+        first = None
+        try:
+            program.run()
+        except SimAbort:
+            raise
+        except Exception as exc:  # noqa
+            first = exc
+        import posixpath
+        fs.files[posixpath.normpath(path)] = csv.encode("utf-8")
+        fs.touch(path)
+        second = None
+        try:
+            program.run()
+        except SimAbort:
+            raise
+        except Exception as exc:  # noqa
+            second = exc
+    log.emit("op-end", op="DATA-REPAIR", first=type(first).__name__ if first else None,
+             second=type(second).__name__ if second else None)
+    res.probe("well-formed model run again after its data file was repaired")
+    if first is not None and second is not None:
+        frame = innermost_frame(second)
+        res.violate("C12.accept", "C12.accept well-formed-model-rejected-after-data-repair %s" % type(second).__name__,
+                    "first run failed with %s on a broken data row; after the repair the same program was rejected with %s "
+                    "(%s) at %s:%s" % (type(first).__name__, type(second).__name__, str(second).split("\n")[0][:120],
+                                       frame[0], frame[1]))
 
 
 def _preload(sc, log, res, csv):
